@@ -89,7 +89,7 @@ def text_for(sit):
     """The input of a situation: str, or bytes for input that is not valid UTF-8, or None (no file)."""
     if sit.get("fault") in ("sigint", "sigterm", "sighup"):
         return SLOW.replace("task t0 ", "tsak t0 ") if sit["input"] == "syntax" else SLOW
-    if sit.get("fault") == "fsizeout":     # a small input whose report is larger than the file size limit
+    if sit.get("fault") in ("fsizeout", "fsizerep"):     # a small input whose report is larger than the file size limit
         return WIDE
     if sit.get("fault") == "fsize":        # larger than the file size limit the process runs under
         return text_for({k: v for k, v in sit.items() if k != "fault"}) + "# padding\n" * (3 * FSIZE_LIMIT // 10)
@@ -163,9 +163,10 @@ def as_bytes(text):
 
 
 def fault_kwargs(sit, scr=None):
-    if sit.get("fault") in ("fsize", "fsizeout"):
+    if sit.get("fault") in ("fsize", "fsizeout", "fsizerep"):
         import resource
-        lim = FSIZE_LIMIT if sit["fault"] == "fsize" else fsize_out_limit(scr)
+        # fsizerep: the copies of the input fit, the report (larger than the input in both formats) does not
+        lim = FSIZE_LIMIT if sit["fault"] == "fsize" else (len(WIDE) + 1000 if sit["fault"] == "fsizerep" else fsize_out_limit(scr))
         return {"preexec_fn": lambda: resource.setrlimit(resource.RLIMIT_FSIZE, (lim, lim))}
     return {}
 
